@@ -12,52 +12,61 @@
 (* terminator.  Words found there count as stored words.                               *)
 (* AtomicSave = FALSE is the code as it is: the file is truncated before the new       *)
 (* contents are written.  (TRUE models write-to-temp + rename, for comparison.)        *)
+(* With AtomicSave the new contents go to a temporary sibling (`temp`) that is renamed  *)
+(* over the file; a crash leaves the sibling behind.  TempExclusive = TRUE is a deviation *)
+(* a seeded change introduced: the sibling is opened with create_new, so after such a     *)
+(* crash every later save fails (and the server only logs it).                            *)
 (* AppendOnly = TRUE is a deviation a seeded change introduced (append "w\n" to the    *)
 (* file instead of rewriting it): the word is glued to an unterminated last line.      *)
 EXTENDS DictOps
 
-CONSTANTS Vocab, MaxAdds, MaxCrashes, AtomicSave, InitDisks, AppendOnly
+CONSTANTS Vocab, MaxAdds, MaxCrashes, AtomicSave, InitDisks, AppendOnly, TempExclusive
 
 Absent == [present |-> FALSE, lines |-> <<>>, open |-> FALSE]
 File(ls) == [present |-> TRUE, lines |-> ls, open |-> FALSE]
 OpenFile(ls) == [present |-> TRUE, lines |-> ls, open |-> TRUE]
-VARIABLES disk, mem, pc, cur, added, nadds, maybe, crashes, lostByTruncate
-dfvars == <<disk, mem, pc, cur, added, nadds, maybe, crashes, lostByTruncate>>
+VARIABLES disk, mem, pc, cur, added, nadds, maybe, crashes, lostByTruncate, temp, failed
+dfvars == <<disk, mem, pc, cur, added, nadds, maybe, crashes, lostByTruncate, temp, failed>>
 
 SetOf(s) == {s[i] : i \in DOMAIN s}
 Lines(d) == d.lines
 SeqOfSet(S) == CHOOSE s \in [1..Cardinality(S) -> S] : \A i, j \in DOMAIN s : i # j => s[i] # s[j]
 
 DFInit == disk \in InitDisks /\ mem = <<>> /\ pc = "idle" /\ cur = <<>> /\ added = disk.lines /\ nadds = 0 /\ maybe = {}
-          /\ crashes = 0 /\ lostByTruncate = FALSE
+          /\ crashes = 0 /\ lostByTruncate = FALSE /\ temp = FALSE /\ failed = {}
 
 Begin(w) == pc = "idle" /\ nadds < MaxAdds /\ cur' = w /\ pc' = "begin" /\ nadds' = nadds + 1
-            /\ UNCHANGED <<disk, mem, added, maybe, crashes, lostByTruncate>>
+            /\ UNCHANGED <<disk, mem, added, maybe, crashes, lostByTruncate, temp, failed>>
 \* load_dict: every line becomes a word (a missing file gives an empty dictionary); str::lines
 \* does not care whether the last line is terminated
-Load == pc = "begin" /\ ~AppendOnly /\ mem' = Lines(disk) /\ pc' = "loaded" /\ UNCHANGED <<disk, cur, added, nadds, maybe, crashes, lostByTruncate>>
-Append_ == pc = "loaded" /\ mem' = Append(mem, cur) /\ pc' = "appended" /\ UNCHANGED <<disk, cur, added, nadds, maybe, crashes, lostByTruncate>>
+Load == pc = "begin" /\ ~AppendOnly /\ mem' = Lines(disk) /\ pc' = "loaded" /\ UNCHANGED <<disk, cur, added, nadds, maybe, crashes, lostByTruncate, temp, failed>>
+Append_ == pc = "loaded" /\ mem' = Append(mem, cur) /\ pc' = "appended" /\ UNCHANGED <<disk, cur, added, nadds, maybe, crashes, lostByTruncate, temp, failed>>
 \* File::create: the old contents are gone from here on
-Create == pc = "appended" /\ disk' = (IF AtomicSave THEN disk ELSE File(<<>>)) /\ pc' = "created"
-          /\ UNCHANGED <<mem, cur, added, nadds, maybe, crashes, lostByTruncate>>
+Create == /\ pc = "appended" /\ disk' = (IF AtomicSave THEN disk ELSE File(<<>>))
+          /\ pc' = (IF AtomicSave /\ TempExclusive /\ temp THEN "failed" ELSE "created")
+          /\ temp' = (temp \/ AtomicSave)
+          /\ UNCHANGED <<mem, cur, added, nadds, maybe, crashes, lostByTruncate, failed>>
 \* write_word_list + flush: one line per word of the map, in the map's order, each terminated
-WriteFlush == pc = "created" /\ disk' = File(SeqOfSet(MutWords(mem))) /\ pc' = "written"
-              /\ UNCHANGED <<mem, cur, added, nadds, maybe, crashes, lostByTruncate>>
+WriteFlush == pc = "created" /\ disk' = File(SeqOfSet(MutWords(mem))) /\ pc' = "written" /\ temp' = FALSE   \* (rename takes the sibling away)
+              /\ UNCHANGED <<mem, cur, added, nadds, maybe, crashes, lostByTruncate, failed>>
+\* the save failed; the command ends, the word is in no file
+Fail == pc = "failed" /\ pc' = "idle" /\ failed' = failed \cup {cur} /\ mem' = <<>> /\ cur' = <<>>
+        /\ UNCHANGED <<disk, added, nadds, maybe, crashes, lostByTruncate, temp>>
 \* the deviation: open for append, write "w\n"
 AppendLine == pc = "begin" /\ AppendOnly /\ pc' = "written"
               /\ disk' = (IF disk.open /\ Len(disk.lines) > 0
                           THEN File([disk.lines EXCEPT ![Len(disk.lines)] = @ \o cur])
                           ELSE File(Append(disk.lines, cur)))
-              /\ UNCHANGED <<mem, cur, added, nadds, maybe, crashes, lostByTruncate>>
+              /\ UNCHANGED <<mem, cur, added, nadds, maybe, crashes, lostByTruncate, temp, failed>>
 Done == pc = "written" /\ added' = Append(added, cur) /\ pc' = "idle" /\ mem' = <<>> /\ cur' = <<>>
-        /\ UNCHANGED <<disk, nadds, maybe, crashes, lostByTruncate>>
+        /\ UNCHANGED <<disk, nadds, maybe, crashes, lostByTruncate, temp, failed>>
 \* the process dies; whatever was buffered is lost
 Crash == pc # "idle" /\ crashes < MaxCrashes
          /\ crashes' = crashes + 1 /\ pc' = "idle" /\ mem' = <<>> /\ cur' = <<>>
          /\ maybe' = maybe \cup {cur}
          /\ lostByTruncate' = (lostByTruncate \/ (pc = "created" /\ ~AtomicSave))
-         /\ UNCHANGED <<disk, added, nadds>>
-DFNext == (\E w \in Vocab : Begin(w)) \/ Load \/ Append_ \/ Create \/ WriteFlush \/ AppendLine \/ Done \/ Crash
+         /\ UNCHANGED <<disk, added, nadds, temp, failed>>
+DFNext == (\E w \in Vocab : Begin(w)) \/ Load \/ Append_ \/ Create \/ WriteFlush \/ AppendLine \/ Done \/ Fail \/ Crash
 
 \* the words a restarted server finds
 Reload == MutWords(Lines(disk))
@@ -66,6 +75,8 @@ CaseClash == HasIdClash(added) \/ \E i \in DOMAIN added : \E m \in maybe : m # a
 \* C07: the saved file always reloads to exactly the words stored so far; a crash may lose
 \* at most the word being added
 NeverLoses == pc = "idle" => (SetOf(added) \subseteq Reload /\ Reload \subseteq SetOf(added) \cup maybe)
+\* a command that ran to its end without a crash has stored its word
+EveryFinishedAddSticks == failed = {}
 \* the same, with the two known deviations named: truncate-before-write and case-folded ids
 NeverLosesExceptKnown == NeverLoses \/ lostByTruncate \/ CaseClash
 =============================================================================
